@@ -309,7 +309,22 @@ class Gen:
                     continue
                 used.add(nm)
                 fields.append((nm, False, tag, self.typ(depth - 1, comparable=comparable)))
+        # blank `_` fields of every field kind, incl. zero-size arrays of incomparable / of more-aligned element types
+        # (the "make it incomparable" and "force the alignment" idioms); they count for comparability, alignment and size
+        if rng.random() < 0.3:
+            for _ in range(rng.choice([1, 1, 2])):
+                fields.insert(rng.randrange(len(fields) + 1), ("_", False, rng.choice([None, None, 'x:"1"']), self.blank_type(comparable)))
         return ('st', tuple(fields))
+
+    def blank_type(self, comparable):
+        rng = self.rng
+        cmp_ok = [('a', 0, ('b', 'uint64')), ('a', 0, ('b', 'complex128')), ('a', 0, ('p', ('b', 'int8'))), ('a', 0, ('b', 'string')),
+                  ('b', 'int'), ('b', 'uint8'), ('b', 'string'), ('b', 'float64'), ('p', ('b', 'int')), ('c', '', ('b', 'int')),
+                  ('if', ()), ('st', ()), ('a', 2, ('b', 'uint16')), ('a', 0, ('st', ())), ('b', 'unsafe.Pointer'), ('a', 0, ('if', ()))]
+        incmp = [('a', 0, ('f', (), (), False)), ('a', 0, ('s', ('b', 'int'))), ('a', 0, ('m', ('b', 'string'), ('b', 'int'))),
+                 ('f', (), (), False), ('s', ('b', 'uint8')), ('m', ('b', 'int'), ('b', 'int')), ('a', 1, ('f', (('b', 'int'),), (), False)),
+                 ('st', (("_", False, None, ('a', 0, ('f', (), (), False))),))]
+        return rng.choice(cmp_ok if comparable else cmp_ok + incmp + incmp)
 
     def iface(self, depth):
         rng = self.rng
